@@ -191,40 +191,37 @@ GetRoute(cfg, h, r) ==
   IN IF r \in 1..Len(rs) THEN [ok |-> TRUE, route |-> rs[r]]
      ELSE [ok |-> FALSE, route |-> [pat |-> <<>>, type |-> "file", tgt |-> 0, wt |-> 0]]
 
-CodeChoice(cfg, rq) == LET hd == Dispatch(AppOf(cfg), rq) IN [h |-> hd.h, r |-> hd.r]
+\* what the handler found by the core does: the closure's (host_index, route_index) -> get_route -> switch on the type
+AnswerOf(cfg, hd, rq) ==
+  IF hd.r = 0
+  THEN IF rq.kind = "ws" /\ "DefaultWsHonoured" \in Dev /\ cfg.dws # 0
+       THEN (IF cfg.dws = DeadWs THEN Ans("wsdown", cfg.dws) ELSE Ans("proxied", cfg.dws))
+       ELSE Nobody(rq.kind)                  \* error_handler(NotFound) / the stream is dropped
+  ELSE LET g == GetRoute(cfg, hd.h, hd.r)
+       IN IF ~g.ok THEN Ans("panic", 0)
+          ELSE IF rq.kind = "ws"
+               THEN \* inner_websocket_handler: if let Some(target) = route.websocket_proxy { proxy_websocket } (else: dropped)
+                    IF g.route.wt = 0 THEN Ans("closed", 0) ELSE Respond("ws", g.route)
+               ELSE Respond("http", g.route)
 
-CodeAnswer(cfg, rq) ==
-  LET hd == Dispatch(AppOf(cfg), rq)
-  IN IF hd.r = 0
-     THEN IF rq.kind = "ws" /\ "DefaultWsHonoured" \in Dev /\ cfg.dws # 0
-          THEN (IF cfg.dws = DeadWs THEN Ans("wsdown", cfg.dws) ELSE Ans("proxied", cfg.dws))
-          ELSE Nobody(rq.kind)                  \* error_handler(NotFound) / the stream is dropped
-     ELSE LET g == GetRoute(cfg, hd.h, hd.r)
-          IN IF ~g.ok THEN Ans("panic", 0)
-             ELSE IF rq.kind = "ws"
-                  THEN \* inner_websocket_handler: if let Some(target) = route.websocket_proxy { proxy_websocket } (else: dropped)
-                       IF g.route.wt = 0 THEN Ans("closed", 0) ELSE Respond("ws", g.route)
-                  ELSE Respond("http", g.route)
+CodeChoice(cfg, rq) == LET hd == Dispatch(AppOf(cfg), rq) IN [h |-> hd.h, r |-> hd.r]
+CodeAnswer(cfg, rq) == AnswerOf(cfg, Dispatch(AppOf(cfg), rq), rq)
 
 \* Location header of a redirect answer: the configured target, nothing else (redirect_handler)
-LocationOf(cfg, rq) == IF "RedirectAppendsPath" \in Dev THEN [tgt |-> CodeAnswer(cfg, rq).tgt, suffix |-> rq.path]
-                       ELSE [tgt |-> CodeAnswer(cfg, rq).tgt, suffix |-> <<>>]
+LocOf(a, rq) == IF "RedirectAppendsPath" \in Dev THEN [tgt |-> a.tgt, suffix |-> rq.path] ELSE [tgt |-> a.tgt, suffix |-> <<>>]
+LocationOf(cfg, rq) == LocOf(CodeAnswer(cfg, rq), rq)
 
-\* ---- the properties, for one configuration and one request ----
-ServeIsCode(cfg, rq) == CodeAnswer(cfg, rq) = Serve(cfg, rq)
-
-RouteOrderRespected(cfg, rq) ==
-  LET c == CodeChoice(cfg, rq)
-      rs == RoutesOf(cfg, c.h)
+\* ---- the properties, for one configuration and one request; c = the code's choice [h, r], a = the code's answer ----
+RouteOrderRespectedC(cfg, rq, c) ==
+  LET rs == RoutesOf(cfg, c.h)
       hit(list, j) == Eligible(list[j], rq.kind) /\ Match(list[j].pat, rq.path)
   IN /\ c.r # 0 => /\ c.h \in 0..Len(cfg.hosts) /\ c.r \in 1..Len(rs)
                    /\ hit(rs, c.r)                                    \* the answering route matches ...
                    /\ \A j \in 1..(c.r - 1) : ~hit(rs, j)             \* ... and no earlier route of its host does
      /\ c.r = 0 => \A j \in 1..Len(cfg.def) : ~hit(cfg.def, j)       \* 404 / closed only when the default host has none
 
-HostOrderRespected(cfg, rq) ==
-  LET c == CodeChoice(cfg, rq)
-      m(i) == rq.hh /\ Match(cfg.hosts[i].pat, rq.host)
+HostOrderRespectedC(cfg, rq, c) ==
+  LET m(i) == rq.hh /\ Match(cfg.hosts[i].pat, rq.host)
       has(i) == \E j \in 1..Len(cfg.hosts[i].routes) :
                     Eligible(cfg.hosts[i].routes[j], rq.kind) /\ Match(cfg.hosts[i].routes[j].pat, rq.path)
       first == FirstIdx(Len(cfg.hosts), m)
@@ -232,12 +229,11 @@ HostOrderRespected(cfg, rq) ==
      /\ (first # 0 /\ has(first)) => c.h = first     \* and it does answer when it has a route for the path
      /\ (c.h = 0 /\ c.r # 0) => (first = 0 \/ ~has(first))   \* the default host only then
 
-RedirectExact(cfg, rq) ==
-  LET c == CodeChoice(cfg, rq) IN
-  (rq.kind = "http" /\ c.r # 0 /\ RoutesOf(cfg, c.h)[c.r].type = "redirect")
-     => /\ CodeAnswer(cfg, rq).cls = "redirect"
-        /\ StatusOf(CodeAnswer(cfg, rq)) = 301
-        /\ LocationOf(cfg, rq) = [tgt |-> RoutesOf(cfg, c.h)[c.r].tgt, suffix |-> <<>>]
+RedirectExactC(cfg, rq, c, a) ==
+  (rq.kind = "http" /\ c.r # 0 /\ c.h \in 0..Len(cfg.hosts) /\ c.r \in 1..Len(RoutesOf(cfg, c.h)) /\ RoutesOf(cfg, c.h)[c.r].type = "redirect")
+     => /\ a.cls = "redirect"
+        /\ StatusOf(a) = 301
+        /\ LocOf(a, rq) = [tgt |-> RoutesOf(cfg, c.h)[c.r].tgt, suffix |-> <<>>]
 
 \* the websocket target an upgrade request is entitled to: the `websocket` key of the first route HAVING one that
 \* matches the path, in the first matching host, else in the default host; 0: none (D1: never the server-level key)
@@ -247,17 +243,39 @@ WsTargetFor(cfg, rq) ==
                   IN IF k = 0 THEN 0 ELSE rs[k].wt
       a == IF i = 0 THEN 0 ELSE pick(cfg.hosts[i].routes)
   IN IF a # 0 THEN a ELSE pick(cfg.def)
-WsProxiedIffConfigured(cfg, rq) ==
+WsProxiedIffConfiguredC(cfg, rq, a) ==
   rq.kind = "ws" =>
-    LET w == WsTargetFor(cfg, rq)  a == CodeAnswer(cfg, rq) IN
+    LET w == WsTargetFor(cfg, rq) IN
     /\ (a.cls \in {"proxied", "wsdown"}) <=> (w # 0)
     /\ (w # 0) => a.tgt = w /\ ((a.cls = "wsdown") <=> (w = DeadWs))
     /\ (w = 0) => a = Ans("closed", 0)
 
+ServeIsCode(cfg, rq) == CodeAnswer(cfg, rq) = Serve(cfg, rq)
+RouteOrderRespected(cfg, rq) == RouteOrderRespectedC(cfg, rq, CodeChoice(cfg, rq))
+HostOrderRespected(cfg, rq) == HostOrderRespectedC(cfg, rq, CodeChoice(cfg, rq))
+RedirectExact(cfg, rq) == RedirectExactC(cfg, rq, CodeChoice(cfg, rq), CodeAnswer(cfg, rq))
+WsProxiedIffConfigured(cfg, rq) == WsProxiedIffConfiguredC(cfg, rq, CodeAnswer(cfg, rq))
+
 \* the answer reads hosts and routes only ("independent of what else is configured")
-IndependentOfRest(cfg, rq) ==
-  \A d \in 0..3 : CodeAnswer([cfg EXCEPT !.dws = d, !.cache = ~cfg.cache, !.level = IF d = 0 THEN "error" ELSE "debug",
-                                         !.threads = d + 1, !.timeout = d], rq) = CodeAnswer(cfg, rq)
+Redress(cfg, d) == [cfg EXCEPT !.dws = d, !.cache = ~cfg.cache, !.level = IF d = 0 THEN "error" ELSE "debug",
+                               !.threads = d + 1, !.timeout = d]
+IndependentOfRest(cfg, rq) == \A d \in 0..3 : CodeAnswer(Redress(cfg, d), rq) = CodeAnswer(cfg, rq)
+
+\* all of the above with the sub-apps built once per configuration (large exhaustive runs)
+AllServeProps(cfg, reqs) ==
+  LET app == AppOf(cfg)
+      app0 == AppOf(Redress(cfg, 0))  app2 == AppOf(Redress(cfg, 2))
+  IN \A rq \in reqs :
+       LET hd == Dispatch(app, rq)
+           c == [h |-> hd.h, r |-> hd.r]
+           a == AnswerOf(cfg, hd, rq)
+       IN /\ a = Serve(cfg, rq)
+          /\ RouteOrderRespectedC(cfg, rq, c)
+          /\ HostOrderRespectedC(cfg, rq, c)
+          /\ RedirectExactC(cfg, rq, c, a)
+          /\ WsProxiedIffConfiguredC(cfg, rq, a)
+          /\ AnswerOf(Redress(cfg, 0), Dispatch(app0, rq), rq) = a
+          /\ AnswerOf(Redress(cfg, 2), Dispatch(app2, rq), rq) = a
 
 (***************************************************************************)
 (* Part 3: logging.                                                        *)
@@ -333,15 +351,15 @@ StartEms == <<H("info", "conf-loaded"), H("debug", "configuration"), H("info", "
 ConnEms == <<M("ConnectionSuccess", ""), M("ThreadPoolProcessStarted", "")>>
 ClosedEm == <<M("ConnectionClosed", "")>>
 
-CacheKey(cfg, rq) == LET c == CodeChoice(cfg, rq) IN
-                     IF "CacheKeyIgnoresHost" \in Dev THEN <<0, rq.path>> ELSE <<c.h, rq.path>>
+CacheKey(hd, rq) == IF "CacheKeyIgnoresHost" \in Dev THEN <<0, rq.path>> ELSE <<hd.h, rq.path>>     \* cache.get/set(&request.uri, host)
 Cached(cache, key) == \E e \in cache : e.key = key
 CachedTgt(cache, key) == (CHOOSE e \in cache : e.key = key).tgt
 
 \* one plain request: [ans, hit, cache', ems, closes]
-HttpStep(cfg, cache, rq, ka) ==
-  LET a0 == CodeAnswer(cfg, rq)
-      key == CacheKey(cfg, rq)
+HttpStep(cfg, app, cache, rq, ka) ==
+  LET hd == Dispatch(app, rq)
+      a0 == AnswerOf(cfg, hd, rq)
+      key == CacheKey(hd, rq)
       cacheable == a0.cls \in {"file", "directory"}
       hit == cfg.cache /\ cacheable /\ Cached(cache, key)              \* cache_check
       a == IF hit THEN Ans(a0.cls, CachedTgt(cache, key)) ELSE a0
@@ -360,8 +378,8 @@ HttpStep(cfg, cache, rq, ka) ==
       ems |-> handler \o served \o (IF a.cls = "panic" THEN <<>> ELSE IF stays THEN <<M("KeepAliveRespected", "")>> ELSE ClosedEm),
       closes |-> ~stays]
 
-WsStep(cfg, rq) ==
-  LET a == CodeAnswer(cfg, rq) IN
+WsStep(cfg, app, rq) ==
+  LET a == AnswerOf(cfg, Dispatch(app, rq), rq) IN
   [ans |-> a, hit |-> FALSE,
    ems |-> <<M("WebsocketConnectionRequested", "")>>
            \o (CASE a.cls = "proxied" -> <<H("info", "ws-connected")>>
@@ -377,16 +395,16 @@ BadEms == <<M("RequestServedError", "400")>> \o ClosedEm
 IdleEms == <<M("RequestTimeout", "408")>> \o ClosedEm
 
 \* a connection = sequence of steps; the result: per step [ans, hit], the cache afterwards, all emissions
-RECURSIVE ConnRun(_, _, _, _, _, _)
-ConnRun(cfg, cache, steps, i, outs, ems) ==
+RECURSIVE ConnRun(_, _, _, _, _, _, _)
+ConnRun(cfg, app, cache, steps, i, outs, ems) ==
   IF i > Len(steps) THEN [outs |-> outs, cache |-> cache, ems |-> ems]
   ELSE LET s == steps[i] IN
        CASE s.op \in {"http", "sat"} ->
-              LET x == HttpStep(cfg, cache, s.rq, s.ka)
+              LET x == HttpStep(cfg, app, cache, s.rq, s.ka)
                   pre == IF s.op = "sat" THEN <<M("ThreadPoolOverload", "")>> ELSE <<>>
               IN IF x.closes THEN [outs |-> Append(outs, [ans |-> x.ans, hit |-> x.hit]), cache |-> x.cache, ems |-> ems \o pre \o x.ems]
-                 ELSE ConnRun(cfg, x.cache, steps, i + 1, Append(outs, [ans |-> x.ans, hit |-> x.hit]), ems \o pre \o x.ems)
-         [] s.op = "ws" -> LET x == WsStep(cfg, s.rq) IN
+                 ELSE ConnRun(cfg, app, x.cache, steps, i + 1, Append(outs, [ans |-> x.ans, hit |-> x.hit]), ems \o pre \o x.ems)
+         [] s.op = "ws" -> LET x == WsStep(cfg, app, s.rq) IN
               [outs |-> Append(outs, [ans |-> x.ans, hit |-> FALSE]), cache |-> cache, ems |-> ems \o x.ems]
          [] s.op = "bad" -> [outs |-> Append(outs, [ans |-> BadAns, hit |-> FALSE]), cache |-> cache, ems |-> ems \o BadEms]
          [] s.op = "idle" -> [outs |-> Append(outs, [ans |-> TimeoutAns, hit |-> FALSE]), cache |-> cache, ems |-> ems \o IdleEms]
@@ -398,13 +416,13 @@ SatHolders(cfg, steps) == IF \E i \in 1..Len(steps) : steps[i].op = "sat" THEN c
 RECURSIVE Repeat(_, _)
 Repeat(s, n) == IF n = 0 THEN <<>> ELSE s \o Repeat(s, n - 1)
 
-RECURSIVE SessionRun(_, _, _, _, _, _)
-SessionRun(cfg, cache, conns, i, outs, ems) ==
+RECURSIVE SessionRun(_, _, _, _, _, _, _)
+SessionRun(cfg, app, cache, conns, i, outs, ems) ==
   IF i > Len(conns) THEN [outs |-> outs, ems |-> ems]
-  ELSE LET x == ConnRun(cfg, cache, conns[i], 1, <<>>, <<>>)
-       IN SessionRun(cfg, x.cache, conns, i + 1, Append(outs, x.outs),
+  ELSE LET x == ConnRun(cfg, app, cache, conns[i], 1, <<>>, <<>>)
+       IN SessionRun(cfg, app, x.cache, conns, i + 1, Append(outs, x.outs),
                      ems \o Repeat(ConnEms, SatHolders(cfg, conns[i])) \o ConnEms \o x.ems)
-Session(cfg, conns) == SessionRun(cfg, {}, conns, 1, <<>>, StartEms)
+Session(cfg, conns) == SessionRun(cfg, AppOf(cfg), {}, conns, 1, <<>>, StartEms)
 
 \* the lines of a session at the configured level, as counts per (severity, what)
 CountLines(level, ems) ==
